@@ -176,7 +176,7 @@ def extra_meta(which, nq, nt):
 
 PROPS = {
     'C01': dict(
-        theorems=[(CMP + 'C01', ['DX.eq_follows_doc', 'DX.partial_cmp_follows_doc', 'DX.cmp_follows_doc',
+        theorems=[('DeriveExModel.Props.Tables', ['DX.isMatch_table_model', 'DX.isMatch_table_doc', 'DX.isMatch_table_complete']), (CMP + 'C01', ['DX.eq_follows_doc', 'DX.partial_cmp_follows_doc', 'DX.cmp_follows_doc',
                                  'DX.body_independent_of_entry'])],
         l1=[('cmp1', 'all', 'all'), ('cmp1all', 20000, 'all'), ('cmpN', 4000, 200000), ('cmpWild', 1000, 50000)],
         labels=r':(PartialEq|PartialOrd|Ord)$',
@@ -215,7 +215,7 @@ PROPS = {
         level_text='Lean theorems: the flag-threading of the builders equals the documented walk over chains of levels (reached levels contribute verbatim; continue iff absent or `..`; stops are local; declared where-clause retained), with the per-trait level tables proved for Clone and Copy and the helper-attribute level (most specific first) for the comparison traits; L1 compares every where-clause token for token on assignments of all bound(..) shapes to all levels',
     ),
     'C05': dict(
-        theorems=[(CMP + 'C05', ['DX.field_error_iff_misuse', 'DX.trait_error_iff_misuse', 'DX.valid_use_accepted',
+        theorems=[('DeriveExModel.Props.Tables', ['DX.isMatch_table_model', 'DX.isMatch_table_doc', 'DX.isMatch_table_complete']), (CMP + 'C05', ['DX.field_error_iff_misuse', 'DX.trait_error_iff_misuse', 'DX.valid_use_accepted',
                                  'DX.misplaced_iff', 'DX.struct_entries_isolated'])],
         l1=[('cmp1', 'all', 'all'), ('cmp1all', 20000, 'all'), ('cmpWild', 3000, 100000)],
         labels=r':(PartialEq|PartialOrd|Ord|Eq|Hash)$|^err$',
@@ -245,13 +245,13 @@ PROPS.update({
         labels=r':Clone$',
     ),
     'C08': dict(
-        theorems=[(CMP + 'C08', ['DX.forms_emitted', 'DX.ops_one_impl_per_form', 'DX.bin_fieldwise', 'DX.assign_fieldwise',
+        theorems=[('DeriveExModel.Props.Tables', ['DX.trait_table_model', 'DX.trait_table_complete']), (CMP + 'C08', ['DX.forms_emitted', 'DX.ops_one_impl_per_form', 'DX.bin_fieldwise', 'DX.assign_fieldwise',
                                  'DX.un_fieldwise', 'DX.ops_fields', 'DX.forms_agree'])],
         l1=[('ops', 4000, 150000), ('all', 3000, 100000)],
         labels=r':(Add|BitAnd|BitOr|BitXor|Div|Mul|Rem|Shl|Shr|Sub|Neg|Not)(Assign)?(#\d)?$',
     ),
     'C09': dict(
-        theorems=[(CMP + 'C09', ['DX.clone_exactly_when_needed', 'DX.binary_forwards_to_base', 'DX.assign_is_op',
+        theorems=[('DeriveExModel.Props.Tables', ['DX.trait_table_model', 'DX.trait_table_complete']), (CMP + 'C09', ['DX.clone_exactly_when_needed', 'DX.binary_forwards_to_base', 'DX.assign_is_op',
                                  'DX.op_from_assign', 'DX.emitted_binary_forms', 'DX.emitted_forms', 'DX.carries_over'])],
         l1=[('impl', 6000, 200000)],
         labels=r'^impl|^err$',
@@ -296,7 +296,7 @@ PROPS.update({
         level='exploration',
     ),
     'C14': dict(
-        theorems=[(CMP + 'C14', ['DX.isMatch_extend', 'DX.reemit_exact_struct', 'DX.reemit_exact_enum',
+        theorems=[('DeriveExModel.Props.Tables', ['DX.isMatch_table_model', 'DX.isMatch_table_doc', 'DX.isMatch_table_complete']), (CMP + 'C14', ['DX.isMatch_extend', 'DX.reemit_exact_struct', 'DX.reemit_exact_enum',
                                  'DX.reemit_on_arg_error_struct', 'DX.reemit_on_arg_error_enum', 'DX.reemit_impl',
                                  'DX.reemit_other', 'DX.item_always_emitted', 'DX.foreign_kept', 'DX.strip_is_sublist',
                                  'DX.underived_helper_kept'])],
@@ -306,14 +306,14 @@ PROPS.update({
         l1_concrete_text='the re-emitted item differs from the input minus the documented derive_ex-owned attributes (the model, proved equal to docStrip*)',
     ),
     'C15': dict(
-        theorems=[(CMP + 'C15', ['DX.entry_equiv_struct', 'DX.entry_equiv_enum', 'DX.entry_equiv_segments_struct',
+        theorems=[('DeriveExModel.Props.Tables', ['DX.isMatch_table_model', 'DX.isMatch_table_doc', 'DX.isMatch_table_complete']), (CMP + 'C15', ['DX.entry_equiv_struct', 'DX.entry_equiv_enum', 'DX.entry_equiv_segments_struct',
                                  'DX.entry_equiv_segments_enum', 'DX.split_equiv', 'DX.order_preserved', 'DX.fromAttrs_congr'])],
         l1=[('all', 4000, 150000), ('cmp1all', 20000, 'all'), ('bounds', 2000, 50000)],
         labels=r'^e\d+:|^err$',
         extra=extra_meta('c15', 3000, 60000),
     ),
     'C16': dict(
-        theorems=[(CMP + 'C16', ['DX.output_shape', 'DX.attr_output_nonempty', 'DX.derive_rejects_with_one_error',
+        theorems=[('DeriveExModel.Props.Tables', ['DX.trait_table_model', 'DX.trait_table_complete']), (CMP + 'C16', ['DX.output_shape', 'DX.attr_output_nonempty', 'DX.derive_rejects_with_one_error',
                                  'DX.core_error_single', 'DX.deterministic'])],
         l1=[('wild', 5000, 200000), ('strip', 2000, 50000), ('impl', 2000, 50000), ('cmpWild', 2000, 50000)],
         labels=r'.',
